@@ -247,6 +247,17 @@ def showLErr : LErr → String
   | .manyNotSingle => "err:ManySetsMustBeSingle"
   | .unsupportedSet => "err:UnsupportedAccountSetType"
 
+/-- `(NAME ((ID|- 0|1 ADDR|-) …) SETSHAPE)` -/
+def parseVField : Sexp → Option VField
+  | .list [.atom n, .list attrs, sh] => do
+    let attrs ← attrs.mapM (fun a => match a with
+      | .list [.atom id, .atom sd, .atom ad] => do
+        pure ({ id := parseName' id, seeds := (← parseBool sd), address := (← parseAddr ad) } : FieldAttr)
+      | _ => none)
+    pure { path := parseName n, attrs := attrs, inner := (← parseSetShape sh) }
+  | _ => none
+where parseName' (s : String) : Option String := if s = "-" then none else some s
+
 def showPErr : PErr → String
   | .unsupportedType => "err:UnsupportedAccountType"
   | .set e => showLErr e
@@ -311,12 +322,18 @@ def answer (xs : List Sexp) : String :=
     match parseSetShape sh with
     | some s => "ok " ++ showIdlSet (setToIdl s)
     | none => "bad-op"
+  -- one variant of a multi-variant account set: `vset <name> <id|-> (<vfield> …)`
+  | [.atom "vset", .atom _, .atom id, .list fs] =>
+    match fs.mapM parseVField with
+    | some fs => "ok " ++ showIdlSet (variantToIdl (if id = "-" then none else some id) fs)
+    | none => "bad-op"
   | [.atom "metas", .atom _, sh, .atom prog, .atom present] =>
     match parseSetShape sh, parseHex prog, parseBool present with
     | some s, some prog, some p => "ok " ++ showSlots p (clientSlots prog p s)
     | _, _, _ => "bad-op"
   -- `flat <prog> <ix> <progid> <present> <idlset> (<client slots>)`: the REAL IDL set flattened by the
   -- model, compared (`agreeAll` / flags) with the REAL client metas carried in the op line
+  | [.atom "vflat", .atom _, .atom _, .atom prog, .atom present, set, .list client]
   | [.atom "flat", .atom _, .atom _, .atom prog, .atom present, set, .list client] =>
     match parseIdlSet set, parseHex prog, parseBool present, (atoms client).bind (fun l => l.mapM parseSlot) with
     | some s, some prog, some p, some cl =>
